@@ -170,7 +170,8 @@ class State:
     def __init__(self):
         self.mem = {}        # object id -> value
         self.env = {}        # (frame, var name) -> object id
-        self.pc = []         # list of z3 Bool
+        self.pc = []         # list of z3 Bool (quantifier-free: used for path pruning and in obligations)
+        self.qpc = []        # quantified facts: only handed to the solver as obligation hypotheses
         self.trace = []      # list of Effect
         self.ghost = {}      # free-form ghost state
         self.frame = 0
@@ -182,6 +183,7 @@ class State:
         s.mem = dict(self.mem)
         s.env = dict(self.env)
         s.pc = list(self.pc)
+        s.qpc = list(self.qpc)
         s.trace = list(self.trace)
         s.ghost = dict(self.ghost)
         s.frame = self.frame
@@ -199,16 +201,34 @@ class State:
         c = simp(c) if isinstance(c, z3.ExprRef) else c
         if c is True:
             return
-        self.pc.append(B(c))
+        c = B(c)
+        if _has_quantifier(c):
+            self.qpc.append(c)
+        else:
+            self.pc.append(c)
+
+
+def _has_quantifier(e, _seen=None):
+    if z3.is_quantifier(e):
+        return True
+    if not z3.is_app(e):
+        return False
+    seen = _seen if _seen is not None else set()
+    i = e.get_id()
+    if i in seen:
+        return False
+    seen.add(i)
+    return any(_has_quantifier(c, seen) for c in e.children())
 
 
 class Obl:
     """One obligation instance (one path / one call site) of a labelled contract clause."""
-    __slots__ = ("label", "func", "line", "hyps", "goal", "kind", "meta", "verdict", "info", "backend", "secs", "bounded")
+    __slots__ = ("label", "func", "line", "hyps", "qhyps", "goal", "kind", "meta", "verdict", "info", "backend", "secs", "bounded")
 
-    def __init__(self, label, func, line, hyps, goal, kind="post", meta=None, bounded=None):
+    def __init__(self, label, func, line, hyps, goal, kind="post", meta=None, bounded=None, qhyps=()):
         self.label, self.func, self.line = label, func, line
         self.hyps, self.goal, self.kind = list(hyps), goal, kind
+        self.qhyps = list(qhyps)      # quantified hypotheses: tried only if the quantifier-free ones do not suffice
         self.meta = meta or {}
         self.verdict = None
         self.info = None
